@@ -34,6 +34,7 @@ func (h *noAllocHandler) HandleObjectValue(_, data []byte) (int, error) {
 }
 
 type allocCase struct {
+	warmFn  string // the function that warmed the Buffer ("" = SkipValue, which needs the deepest stack)
 	between bool // between warm-up and measurement, every buffer-taking function runs on short documents with the same buffer
 	fn   string
 	data []byte
@@ -50,7 +51,18 @@ func runAlloc(sw *shardWriter, j *jb, c allocCase, st *genStats) {
 	var innerBuf rjson.Buffer
 	if c.warm != nil {
 		w := expandSegs(c.warm)
-		rjson.SkipValue(w, &buf)
+		switch c.warmFn {
+		case "SkipValueFast":
+			rjson.SkipValueFast(w, &buf)
+		case "Valid":
+			rjson.Valid(w, &buf)
+		case "HandleArrayValues0":
+			rjson.HandleArrayValues(w, zeroArr, &buf)
+		case "HandleObjectValues0":
+			rjson.HandleObjectValues(w, zeroObj, &buf)
+		default:
+			rjson.SkipValue(w, &buf)
+		}
 		rjson.SkipValue(w, &innerBuf)
 	}
 	if c.between && c.warm != nil {
@@ -146,8 +158,8 @@ func runAlloc(sw *shardWriter, j *jb, c allocCase, st *genStats) {
 				panicked = 1
 			}
 		}()
-		if c.between {
-			// the first call after the interleaved short calls is the one that matters
+		if c.between || c.warmFn != "" {
+			// the first call after the interleaved short calls / after the other function's warm-up is the one that matters
 			allocs = float64(singleShotMallocs(func() { ok = f() })) / 5
 			return
 		}
@@ -179,6 +191,8 @@ func runAlloc(sw *shardWriter, j *jb, c allocCase, st *genStats) {
 	} else {
 		j.raw(`[]`)
 	}
+	j.raw(`,"warmfn":`)
+	j.str(c.warmFn)
 	j.raw(`,"between":`)
 	j.b01(c.between)
 	j.raw(`,"usesbuf":`)
@@ -301,6 +315,24 @@ func genAllocC19(c *genCtx, sw *shardWriter, j *jb) {
 			if di%2 == 0 {
 				setCurrent("alloc between " + fn)
 				runAlloc(sw, j, allocCase{fn: fn, data: d, segs: dc.segs, warm: dc.warm, between: true}, c.st)
+			}
+		}
+		// the Buffer warmed by *another* function on the very same document (what each function leaves in the
+		// Buffer differs: a traversal handles the top level without a push, SkipValueFast counts one kind of bracket)
+		if di%3 == 0 {
+			fns := []string{"SkipValue", "SkipValueFast", "Valid"}
+			if firstNonWS(d) == '[' {
+				fns = append(fns, "HandleArrayValues0")
+			} else if firstNonWS(d) == '{' {
+				fns = append(fns, "HandleObjectValues0")
+			}
+			for _, wf := range fns {
+				for _, fn := range fns {
+					if wf != fn {
+						setCurrent("alloc cross " + wf + " " + fn)
+						runAlloc(sw, j, allocCase{fn: fn, data: d, segs: dc.segs, warm: dc.segs, warmFn: wf}, c.st)
+					}
+				}
 			}
 		}
 		f := firstNonWS(d)
@@ -653,7 +685,8 @@ func init() {
 			}
 		}
 		btw, _ := ev["between"].(float64)
-		runAlloc(nil, &j, allocCase{fn: ev["fn"].(string), data: d, segs: segs, warm: warm, pre: int(ev["dstlen"].(float64)), cap: int(ev["dstcap"].(float64)), between: btw == 1}, newStats())
+		wf, _ := ev["warmfn"].(string)
+		runAlloc(nil, &j, allocCase{warmFn: wf, fn: ev["fn"].(string), data: d, segs: segs, warm: warm, pre: int(ev["dstlen"].(float64)), cap: int(ev["dstcap"].(float64)), between: btw == 1}, newStats())
 		return append([]byte{}, j.b...), nil
 	}
 }
